@@ -2,6 +2,8 @@ package server
 
 import (
 	"encoding/json"
+	"fmt"
+	"strings"
 	"time"
 
 	"github.com/mimiro-io/datahub/internal/verifrt/engine"
@@ -96,6 +98,36 @@ func init() {
 		}
 		for _, l := range []int{1, 2} {
 			reads = append(reads, VOp{K: "read", R: "r2", DS: "A", L: l, LO: true})
+		}
+		// over HTTP: every document of the C15 round-trip box (all value shapes, incl. nested entities and arrays) is
+		// posted, then the current version of each of its entities is posted again: the feed must not grow
+		{
+			var tasks []json.RawMessage
+			for i := 0; i < 2400; i += 200 {
+				tasks = append(tasks, json.RawMessage(fmt.Sprintf(`{"kind":"repost","from":%d,"to":%d}`, i, i+200)))
+			}
+			pl := &engine.Pool{Args: []string{"worker", "c15"}, Timeout: 300 * time.Second}
+			cases := 0
+			for _, o := range pl.Do(tasks, nil) {
+				var cr struct {
+					Cases int                `json:"cases"`
+					Viol  []engine.Violation `json:"viol"`
+				}
+				if o.Err != "" || json.Unmarshal(o.Out, &cr) != nil {
+					r.Cap("c02-repost: worker problem " + o.Err)
+					continue
+				}
+				cases += cr.Cases
+				for _, v := range cr.Viol {
+					if strings.HasPrefix(v.Key, "C02:") {
+						v.Engine = "ENUM:c02-repost"
+						r.AddViolation(v)
+					}
+				}
+			}
+			r.Evaluations += cases
+			r.Traces += cases
+			r.AddPart(map[string]interface{}{"engine": "ENUM", "name": "c02-http-repost", "documents": cases})
 		}
 		alpha := append(writes, reads...)
 		params := storeParams("c02", vDS, vIDs)
